@@ -62,11 +62,12 @@ def simulate(L, K, lines):
             touched = [a[0]]
         elif op == "default":
             slots[a[0]] = AVec()
+            slots[a[0]].fixed = [0] * lay.nfixed(L)
             touched = [a[0]]
         elif op == "emplace":
             v = slots[a[0]]
             tup = parse_emplace(L, a[1:])
-            if v.null or len(v.elems) >= v.cap:
+            if v.null or v.moved or len(v.elems) >= v.cap:
                 raise Invalid("emplace beyond capacity")
             fi = 0
             for k, p in enumerate(L):
@@ -112,6 +113,8 @@ def simulate(L, K, lines):
             touched = [a[0]]
         elif op == "reserve":
             v = slots[a[0]]
+            if v.moved:
+                raise Invalid("reserve on moved-from")
             if a[1] > v.cap:
                 pay = sum(len(f) * p.size for t_ in v.elems for f, p in zip(t_, L) if p.kind == lay.VARYING)
                 if lay.has_varying(L) and a[2] < pay:
@@ -149,6 +152,7 @@ def simulate(L, K, lines):
             slots[a[0]] = d
             m = AVec()
             m.aid, m.moved, m.cap = s.aid, True, 0
+            m.fixed = list(s.fixed)
             slots[a[1]] = m
             touched = [a[0], a[1]]
         elif op == "moveassign":
@@ -160,6 +164,7 @@ def simulate(L, K, lines):
                     slots[a[0]] = d
                     m = AVec()
                     m.aid, m.moved = s.aid, True
+                    m.fixed = list(s.fixed)
                     slots[a[1]] = m
                 else:
                     if s.moved:
@@ -394,7 +399,50 @@ def oracle_C05(L, K, lines, steps, spec):
             used = prev_end
             if lay.align_up(used, S) != ov["cons"] and not _grown(spec, sp, s):
                 v.append("step %d: full all-fixed vector uses %d bytes, memory_consumption() = %d" % (i, used, ov["cons"]))
+    v += oracle_C05_footprint(L, K, lines, steps, spec)
     return v[:5]
+
+
+def oracle_C05_footprint(L, K, lines, steps, spec):
+    """(iii) no operation makes a vector consume more than the largest of: before, the
+    source, a fresh vector with the same capacity and payload budget"""
+    v = []
+    S = lay.SA(L)
+    for i in range(1, min(len(steps), len(spec))):
+        sp = spec[i]
+        if sp["op"] not in ("reserve", "copyctor", "copyassign", "movector", "moveassign", "swap"):
+            continue
+        a = sp["args"]
+        d = a[0]
+        after = steps[i]["vecs"].get(d)
+        if after is None:
+            continue
+        cands = []
+        before = steps[i - 1]["vecs"].get(d)
+        # the last observation of the operands before this step
+        def last_obs(slot):
+            for j in range(i - 1, -1, -1):
+                if slot in steps[j]["vecs"]:
+                    return steps[j]["vecs"][slot]
+                if slot in steps[j]["null"] or slot in steps[j]["gone"]:
+                    return None
+            return None
+        b = last_obs(d)
+        if b is not None and sp["op"] not in ("copyctor", "movector"):
+            cands.append(b["cons"])
+        if sp["op"] != "reserve":
+            sobs = last_obs(a[1])
+            if sobs is not None:
+                cands.append(sobs["cons"])
+        av = sp["slots"].get(d)
+        if av is not None:
+            sz = lay.esize(L, av.fixed)
+            cands.append(lay.units(L, lay.needed(av.cap, av.budget, sz)) * S)
+            if not lay.has_varying(L):
+                cands.append(lay.units(L, av.budget + sz[1] * av.cap) * S)
+        if cands and after["cons"] > max(cands):
+            v.append("step %d %s: memory_consumption() = %d exceeds before/source/fresh = %r" % (i, sp["op"], after["cons"], cands))
+    return v
 
 
 def _grown(spec, sp, s):
@@ -661,6 +709,19 @@ def erase_overlap_key(prop, v):
 
 
 KEYS["erase-nontrivial-overlap"] = erase_overlap_key
+
+
+def move_assign_units_key(prop, v):
+    """C05: element-wise move assignment (unequal, non-propagating, not always-equal
+    allocators) into a smaller vector allocates SA times the source's block"""
+    K = v["K"]
+    if K[1] or K[3] or lay.SA(v["L"]) <= 1:
+        return False
+    texts = (v.get("oracle") or []) + [v["detail"]]
+    return any(re.match(r"step \d+ moveassign: memory_consumption\(\)", x) for x in texts)
+
+
+KEYS["move-assign-units"] = move_assign_units_key
 
 
 def known_key(prop, v, known):
